@@ -188,8 +188,10 @@ def make_case(rng):
     if has_str or ctx == "appendc":
         # (a byte >= 0x80 in the middle: an indexed byte is 0..255 whatever the element type and the indexing mode)
         mid = rng.choice([90, 233, 128, 255])
-        outs_src.append(f'out str[8] st = "a\\x{mid:02x}~";')
-        outs_tok += ["out", "st", "str", "8", "1", "8", "defs", "3", "97", str(mid), "126"]
+        # (sometimes without terminator: what lies at and beyond the length is then whatever was there before)
+        unt = rng.random() < 0.3
+        outs_src.append(f'out {"unterminated " if unt else ""}str[8] st = "a\\x{mid:02x}~";')
+        outs_tok += ["out", "st", "str", "8", "0" if unt else "1", "8", "defs", "3", "97", str(mid), "126"]
         sidx = idx
         strs.append((idx, "st"))
         idx += 1
